@@ -47,6 +47,10 @@ def log(*a):
     print(*a, file=sys.stderr, flush=True)
 
 
+import threading  # noqa: E402
+_modlock = threading.Lock()
+
+
 def child_path(prop, variant):
     return os.path.join(BIN, "vchild-%s-%s" % (prop.lower(), variant))
 
@@ -57,11 +61,11 @@ def build(prop, variant):
     modflag = []
     if ALT:
         mod = os.path.join(BIN, "go.mod")
-        txt = open(os.path.join(HARNESS, "go.mod")).read().replace("=> /repo", "=> " + os.path.abspath(REPO))
-        with open(mod + ".tmp%d" % os.getpid(), "w") as f:
-            f.write(txt)
-        os.replace(mod + ".tmp%d" % os.getpid(), mod)
-        shutil.copyfile(os.path.join(REPO, "go.sum"), os.path.join(BIN, "go.sum"))
+        with _modlock:
+            txt = open(os.path.join(HARNESS, "go.mod")).read().replace("=> /repo", "=> " + os.path.abspath(REPO))
+            with open(mod, "w") as f:
+                f.write(txt)
+            shutil.copyfile(os.path.join(REPO, "go.sum"), os.path.join(BIN, "go.sum"))
         modflag = ["-modfile=" + mod]
     else:
         try:
